@@ -722,3 +722,204 @@ def check_U8(ctx, rep):
     if not found:
         raise Broken('U8: no items.insert in UnionFind::push')
     return n
+
+
+# ------------------------------------------------------------------ U9
+
+def _branch_tail(e):
+    e = strip(e)
+    while e.get('k') == 'block' and 'e' in e:
+        e = strip(e['e'])
+    return e
+
+
+def check_U9(ctx, rep):
+    """uf linking step, sibling branches agree: (a) Elem::union(self, other) puts `other` under self's root (`other.parent.set(self.parent.get())`,
+    no write of self.parent) and splices the two class rings by exchanging the `next` pointers; (b) in Elem::union_by_rank every branch
+    returns the parent of the element it made the receiver of `union`; (c) union_internal returns the find result whose id it compared
+    the new root with."""
+    cr = ctx.lib('ascent_byods_rels')
+    n = 0
+    b = cr.bodies.get('uf::elems::Elem::<T>::union')
+    if b is None:
+        raise Broken('U9: Elem::union not found')
+    ps = [p['id'] for p in b['params'] if p.get('k') == 'bind']
+    if len(ps) != 2:
+        raise Broken('U9: Elem::union does not have two simple parameters')
+    me, other = ps
+    inits = _let_inits(b)
+    rep.functions.add(b['path'])
+
+    def cell(e):
+        """(root local id, field) of `X.<field>` receiver"""
+        e = strip(e)
+        if e.get('k') == 'field':
+            r = chain_root(e)
+            return (r['id'] if r is not None else None, e['n'])
+        return (None, None)
+
+    def val_src(e, depth=0):
+        """(root local, field) when e is `X.<field>.get()` possibly through a local / a `replace` result"""
+        e = _unwrap_unsafe(e)
+        if e.get('k') == 'mcall' and e['m'] in ('get', 'replace'):
+            return cell(e['r']) + (e['m'],)
+        if e.get('k') == 'path' and e.get('res') == 'local' and e.get('id') in inits and depth < 3:
+            return val_src(inits[e['id']], depth + 1)
+        return (None, None, None)
+    link_ok = ring_a = ring_b = False
+    self_parent_written = False
+    top = strip(b['tree'])
+    top_stmts = (top.get('ss', []) + ([top['e']] if 'e' in top else [])) if top.get('k') == 'block' else []
+
+    def stmt_index(node):
+        for i, st in enumerate(top_stmts):
+            if node is not None and _contains(st, lambda y: y is node):
+                return i
+        return None
+    inits_node = {x_['p']['id']: x_ for x_, _ in walk(b['tree']) if x_.get('k') == 'let' and 'i' in x_ and x_['p'].get('k') == 'bind'}
+    me_next_writes = [x_ for x_, _ in walk(b['tree']) if x_.get('k') == 'mcall' and x_['m'] in ('set', 'replace') and x_['a']
+                      and cell(x_['r']) == (me, 'next') and not _in_assert(cr, x_)]
+    for x, parents in walk(b['tree']):
+        if _in_assert(cr, x):
+            continue
+        if x.get('k') == 'mcall' and x['m'] in ('set', 'replace') and x['a']:
+            tgt = cell(x['r'])
+            src = val_src(x['a'][0])
+            if tgt == (other, 'parent') and src[:2] == (me, 'parent'):
+                link_ok = True
+            if tgt == (me, 'parent'):
+                self_parent_written = True
+            if tgt == (me, 'next') and src[:2] == (other, 'next'):
+                ring_a = True
+            if tgt == (other, 'next') and src[:2] == (me, 'next'):
+                # the value must be self's *old* next: the result of the `replace` that overwrote it, or a read that precedes that write
+                if src[2] == 'replace':
+                    ring_b = True
+                else:
+                    a0 = strip(x['a'][0])
+                    rd = stmt_index(inits_node.get(a0.get('id'))) if a0.get('k') == 'path' and a0.get('id') in inits_node else stmt_index(x)
+                    wr = min([stmt_index(w) for w in me_next_writes] or [10 ** 6])
+                    ring_b = rd is not None and rd < wr
+    n += 1
+    ok = link_ok and not self_parent_written and ring_a and ring_b
+    rep.inst('U9', '%s: other goes under self\'s root, self keeps its parent, the next pointers are exchanged: %s' % (b['path'], ok))
+    if not ok:
+        what = 'link-direction' if (not link_ok or self_parent_written) else 'ring-splice'
+        rep.viol('U9', b['path'], 'union:' + what,
+                 'Elem::union(self, other) must set other.parent to self\'s root, leave self.parent alone and exchange self.next / other.next '
+                 '(%s)' % what)
+    b = cr.bodies.get('uf::elems::Elem::<T>::union_by_rank')
+    if b is None:
+        raise Broken('U9: Elem::union_by_rank not found')
+    rep.functions.add(b['path'])
+    for x, parents in walk(b['tree']):
+        if x.get('k') != 'if':
+            continue
+        for br in (x['th'], x.get('el')):
+            if br is None:
+                continue
+            calls = [y for y, _ in walk(br) if y.get('k') == 'mcall' and cname(callee(y) or {}) == 'uf::elems::Elem::<T>::union']
+            if len(calls) != 1:
+                continue
+            recv = chain_root(calls[0]['r'])
+            arg = chain_root(calls[0]['a'][0])
+            t = _branch_tail(br)
+            tr = chain_root(t)
+            n += 1
+            ok = recv is not None and arg is not None and tr is not None and tr['id'] == recv['id'] and arg['id'] != recv['id'] \
+                and t.get('k') == 'mcall' and t['m'] == 'get' and cell(t['r'])[1] == 'parent'
+            rep.inst('U9', '%s: branch `%s` returns the parent of the receiver of union: %s' % (b['path'], calls[0].get('snip', '')[:30], ok))
+            if not ok:
+                rep.viol('U9', b['path'], 'union_by_rank:wrong-root-returned',
+                         'a branch of union_by_rank must return `.parent.get()` of the element it made the new root (the receiver of `union`)',
+                         loc=cr.loc(calls[0]))
+    b = cr.bodies.get('uf::UnionFind::<T>::union_internal')
+    if b is None:
+        raise Broken('U9: union_internal not found')
+    rep.functions.add(b['path'])
+    inits = _let_inits(b)
+    root_locals = {lid for lid, e in inits.items() if _contains(e, lambda y: y.get('k') == 'mcall' and cname(callee(y) or {}).startswith('uf::elems::Elem::<T>::union'))}
+    for x, parents in walk(b['tree']):
+        if x.get('k') != 'if' or _in_assert(cr, x):
+            continue
+        c_ = strip(x['c'])
+        if c_.get('k') != 'binary' or c_.get('op') not in ('==', '!='):
+            continue
+        l, r = chain_root(c_['l']), chain_root(c_['r'])
+        if l is None or r is None:
+            continue
+        cmp_res = cmp_e = None
+        if l['id'] in root_locals:
+            cmp_res, cmp_e = r, strip(c_['r'])
+        elif r['id'] in root_locals:
+            cmp_res, cmp_e = l, strip(c_['l'])
+        if cmp_res is None:
+            continue
+        th, el = (x['th'], x.get('el')) if c_['op'] == '==' else (x.get('el'), x['th'])
+        t = chain_root(_branch_tail(th)) if th else None
+        te = chain_root(_branch_tail(el)) if el else None
+        n += 1
+        # the new root is compared with the *id* of a find result (its element's parent equals the new root whichever side won)
+        is_id = cmp_e.get('k') == 'field' and cmp_e['n'] == 'id' and strip(cmp_e['e']).get('k') == 'path'
+        ok = is_id and t is not None and t['id'] == cmp_res['id'] and te is not None and te['id'] != cmp_res['id']
+        if not is_id:
+            rep.viol('U9', b['path'], 'union_internal:root-not-compared-with-id',
+                     'the new root must be compared with the `.id` of a find result; `%s` is not that (after the linking step the parent of either '
+                     'root equals the new root, so such a test does not tell which side won)' % cmp_e.get('snip', '?')[:60], loc=cr.loc(x))
+            continue
+        rep.inst('U9', '%s: the find result whose id equals the new root is the one returned: %s' % (b['path'], ok))
+        if not ok:
+            rep.viol('U9', b['path'], 'union_internal:wrong-result-returned',
+                     'after linking, the branch taken when the new root equals `%s.id` must return `%s`, the other branch the other find result'
+                     % (cmp_res['n'], cmp_res['n']), loc=cr.loc(x))
+    if n < 4:
+        raise Broken('U9: expected 4 sites (union, two branches of union_by_rank, union_internal), found %d' % n)
+    return n
+
+
+
+# ------------------------------------------------------------------ U10
+
+def check_U10(ctx, rep, impl_prefix, tables):
+    """each class once: a query that appends its own class id (`.chain([id])`) to the ids read from a class-edge table has removed that id
+    from them first (`filter(|s| s != id)` upstream in the same chain) - a class with a self edge is listed in its own entry."""
+    cr = ctx.lib('ascent_byods_rels')
+    n = 0
+    for path, b in sorted(cr.bodies.items()):
+        if not path.startswith(impl_prefix):
+            continue
+        self_id = _self_id(b)
+        for x, parents in walk(b['tree']):
+            if x.get('k') != 'mcall' or x['m'] != 'chain' or not x['a']:
+                continue
+            a0 = strip(x['a'][0])
+            if a0.get('k') != 'array' or len(a0.get('es', [])) != 1:
+                continue
+            own = chain_root(a0['es'][0])
+            if own is None:
+                continue
+            # walk the receiver chain upstream
+            r = strip(x['r'])
+            from_table = filtered = False
+            while r.get('k') == 'mcall':
+                if r['m'] == 'filter' and r['a'] and strip(r['a'][0]).get('k') == 'closure':
+                    cl = strip(r['a'][0])
+                    pids = {bb['id'] for pp_ in cl['ps'] for bb in pat_bindings(pp_)}
+                    body = strip(cl['b'])
+                    if body.get('k') == 'binary' and body.get('op') == '!=':
+                        l_, r_ = chain_root(body['l']), chain_root(body['r'])
+                        if l_ is not None and r_ is not None and {l_['id'], r_['id']} & pids and own['id'] in (l_['id'], r_['id']):
+                            filtered = True
+                if r['m'] in ('get', 'get_mut') and _self_field(r['r'], self_id) in tables:
+                    from_table = True
+                r = strip(r['r'])
+            if not from_table:
+                continue
+            n += 1
+            rep.functions.add(path)
+            rep.inst('U10', '%s: own class id appended after it was filtered out of the table entry: %s' % (path, filtered))
+            if not filtered:
+                rep.viol('U10', path, 'own-class-listed-twice',
+                         'the ids read from the class-edge table are chained with the own class id without `filter(|s| s != id)` before: a class '
+                         'with a self edge (add(x, x) on a fresh x, or any collapsed cycle) is enumerated twice', loc=cr.loc(x))
+    return n
